@@ -61,6 +61,11 @@ type Tmpl struct {
 	StrT, KeyT types.Type
 	// IntAbsLimit, if set, bounds |value| of integer-kind and json.Number representations.
 	IntAbsLimit *big.Int
+	// IntExactFloat replaces IntAbsLimit by "the value is exactly a float64": |v| <= 2^53
+	// or v is a multiple of 2^11 (every such integer below 2^64 has a 53-bit mantissa).
+	IntExactFloat bool
+	// RootTyped restricts the root to a typed container ([]T, map[string]T with T concrete).
+	RootTyped bool
 	// JNIntegersOnly restricts json.Number representations to integer texts (JK = 0).
 	JNIntegersOnly bool
 }
@@ -160,6 +165,9 @@ func (m *Machine) newNode(name string, tm *Tmpl, depth int) *Node {
 	if tm.ContainerReps {
 		n.CRep = v("crep", smt.SInt)
 		m.crepInvariants(n)
+		if depth == 0 && tm.RootTyped {
+			m.AddBase(n.TypedContainer())
+		}
 	} else {
 		n.CRep = c.Int(0)
 	}
